@@ -243,11 +243,17 @@ func (s *CatSc) checkIn(ro runOut, st *core.Stats, add func(clause, key, format 
 			if active != 0 {
 				// a listener is active: this driver refuses a second one; the refused call
 				// must leave the active listener (and its stop function) untouched
-				st.Probe("in:listen-refused-while-listening")
-				if c.err == nil {
-					add("listen-works", "in-second-listener-accepted", "Listen returned nil although listener #%d is still active (the driver's contract refuses a second listener)", active)
-					return
+				if c.err != nil {
+					st.Probe("in:listen-refused-while-listening")
+					break // refused: nothing may change (checked through the deliveries of the active listener)
 				}
+				// accepted: the new listener replaces the old one from here on
+				st.Probe("in:second-listener-accepted")
+				if old := listeners[active]; old != nil && old.stopCall == inf {
+					old.stopCall = c.start
+				}
+				l.ok = true
+				active = c.info
 				break
 			}
 			if c.err != nil {
